@@ -274,10 +274,23 @@ func c16Event(c obj) obj {
 		rand.New(rand.NewSource(seed)).Shuffle(len(order), func(i, j int) { order[i], order[j] = order[j], order[i] })
 		src := ordered.NewMap[string, any](0)
 		jpairs := [][2]any{}
-		for _, i := range order {
+		// every fifth document has an edit history: keys that were set and removed again (tombstones in the storage, no
+		// compaction) are not keys of the document
+		edited := seed%5 == 2 && len(doc) >= 2
+		if edited {
+			src.Set("removed_first", "gone")
+		}
+		for n, i := range order {
 			pp := doc[i].([]any)
 			src.Set(pp[0].(string), avToGeneric(pp[1]))
 			jpairs = append(jpairs, [2]any{pp[0], avToJSONable(pp[1])})
+			if edited && n == 0 {
+				src.Set("removed_second", []any{"gone"})
+			}
+		}
+		if edited {
+			src.Delete("removed_first")
+			src.Delete("removed_second")
 		}
 		dst := reflect.New(T)
 		if pre {
